@@ -176,7 +176,21 @@ void profile_blockedit(const json& plan, Ctx& ctx) {
 			uint32_t idx = 1 + uint32_t(sel % (nb - 1));
 			NiObject* x = m.order[idx];
 			if (isCachedGeomData(*nif, x)) { stepNo++; continue; }
-			hdr.DeleteBlock(idx);
+			// the NiRef overload, called the way the library's own helpers call it: with a reference that lives inside a block
+			NiRef* via = nullptr;
+			if (jbool(st, "via_ref", false)) {
+				std::vector<NiRef*> holders;
+				for (auto o : m.order) {
+					if (o == x) continue;
+					auto it = m.refs.find(o);
+					if (it == m.refs.end()) continue;
+					for (auto& rt : it->second)
+						if (rt.second == x && !rt.first->IsEmpty() && rt.first->index == idx) holders.push_back(rt.first);
+				}
+				if (!holders.empty()) via = holders[ju64(st, "pick", 0) % holders.size()];
+			}
+			if (via) { hdr.DeleteBlock(*via); ctx.probe("op_delete_via_stored_ref"); }
+			else hdr.DeleteBlock(idx);
 			m.order.erase(m.order.begin() + idx);
 			m.refs.erase(x);
 			bool wasReferenced = false;
